@@ -1031,3 +1031,68 @@ def containers_not_mutated_while_iterated(chk):
                    detail="`for %s in %s` with %s in its body: the element after each removed one is skipped (a dict raises RuntimeError)"
                           % (src(lp.target), src(lp.iter)[:50], what), construct=ident, text="container changed while iterated: " + what[:50])
     chk.ob("ITERMUT-0", "for loops examined for changes to the container they walk (%d functions)" % n, True, "mpf:1", nontrivial=False)
+
+
+# -------------------------------------------------------------------------------------------------------- BRACKET-0
+_POS_BRACKET = """
+class A:
+    def rotate(self):
+        self._busy = True
+        items = self._available()
+        if not items:
+            return
+        self._select(items[0])
+        self._busy = False
+"""
+# flags of the pinned tree that one function both sets and clears without being a bracket (read): the flag is meant to stay set on some exits
+_BRACKET_CONFIRMED = {
+    "mpf/platforms/fadecandy.py::FadeCandyOPClient.__init__": "configuration toggles, not a bracket",
+    "mpf/platforms/opp/opp_serial_communicator.py::OPPSerialCommunicator._parse_msg": "_lost_synch is decoder state: it stays set until a valid frame start is seen",
+}
+
+
+def _open_brackets(fn_node, cfg):
+    """[(set node, flag, witness path)]: the function sets `self.<flag> = True`, can go on to `self.<flag> = False` (so it brackets a phase), and some
+    returning path after the set passes no clear: the flag stays set although the phase is over."""
+    sets, clears = {}, {}
+    for n in cfg.nodes:
+        if n.kind == "stmt" and isinstance(n.ast, ast.Assign) and len(n.ast.targets) == 1 and isinstance(n.ast.targets[0], ast.Attribute) and \
+                isinstance(n.ast.value, ast.Constant) and n.ast.value.value in (True, False) and src(n.ast.targets[0].value) == "self":
+            (sets if n.ast.value.value is True else clears).setdefault(src(n.ast.targets[0]), []).append(n)
+    out = []
+    for k in sets:
+        if k not in clears:
+            continue
+        cn = [n.id for n in clears[k]]
+        for s_ in sets[k]:
+            if not cfg.path_avoiding(s_.id, cn, [], ignore_exc=True):
+                continue
+            w = cfg.path_avoiding(s_.id, [cfg.exit.id], cn, ignore_exc=True)
+            if w is not None:
+                out.append((s_, k, w))
+    return out
+
+
+def flag_brackets_closed(chk):
+    from sa.cfg import CFG
+    pos = ast.parse(_POS_BRACKET).body[0].body[0]
+    try:
+        if len(_open_brackets(pos, CFG(pos))) != 1:
+            chk.pending_errors.append("BRACKET-0 detector does not match its positive example")
+    except Exception as e:     # noqa
+        chk.pending_errors.append("BRACKET-0 positive example could not be analysed: %r" % (e,))
+    n = 0
+    for ident in sorted(_anchor_idents(chk)):
+        rel, qual = ident.split("::", 1)
+        f = chk.repo.try_func(rel, qual)
+        if f is None or ident in _BRACKET_CONFIRMED:
+            continue
+        if not any(isinstance(x, ast.Constant) and x.value is False for x in ast.walk(f.node)):
+            continue
+        n += 1
+        cfg = f.cfg()
+        for s_, k, w in _open_brackets(f.node, cfg):
+            chk.ob("BRACKET-0", "a flag that a function sets for a phase and clears at its end is cleared on every returning path after the set", False, f.where(s_.ast),
+                   detail="%s stays True on an early exit: whatever the flag suspends stays suspended" % k, construct=ident, text="phase flag %s left set" % k,
+                   path=cfg.fmt_path(w, f))
+    chk.ob("BRACKET-0", "functions examined for phase flags left set (%d)" % n, True, "mpf:1", nontrivial=False)
